@@ -382,8 +382,10 @@ def check_property(prop, tier, repo, only=None, seed=0):
             undecided.append(Obl(m, '?', '?', 'undecided', 'obligation listed in obligations.lock was not reported by this run'))
 
         replay_paths = []
-        for o in violations:
-            rp = write_replay(prop, o, scr, tier)
+        budget = {'kani_playback': 1}
+        # cheapest failing harness first, so the one playback attempt goes to it
+        for o in sorted(violations, key=lambda x: (x.engine != 'native', x.time_s)):
+            rp = write_replay(prop, o, scr, tier, all_obls, budget)
             replay_paths.append((o, rp))
 
         write_evidence(prop, tier, seed, pspec, all_obls, infos, cmds, scratch_diff, known_hits, violations, undecided, time.time() - t0)
@@ -422,36 +424,55 @@ def load_lock():
         return {}
 
 
-def write_replay(prop, o, scr, tier):
-    """Write the replay file for a failed obligation. For Kani failures obtain a
-    concrete counter-example and replay it on the real code in the scratch copy."""
+def write_replay(prop, o, scr, tier, all_obls, budget):
+    """Write the replay file for a failed obligation.
+
+    Counter-example, in order of preference:
+      1. the unit's paired native enumerator (N engine) - the input is run on the
+         real code natively, so finding it IS the replay;
+      2. Kani concrete playback of the failing harness (second, single-threaded
+         pass with a time budget; the generated test is then run natively on the
+         real code with `cargo kani playback`);
+      3. none: the replay file names the failed obligation and carries the
+         verifier's output; the VIOLATION line ends with no-failing-input-found.
+    """
     h = hashlib.sha256(o.id.encode()).hexdigest()[:10]
     rp = os.path.join(REPLAY_DIR, '%s-%s.json' % (prop, h))
     rec = {'property': prop, 'obligation': o.id, 'engine': o.engine, 'unit': o.unit, 'detail': o.detail,
            'verifier_output': o.extra.get('verus') or o.extra.get('raw') or o.extra.get('log') or '', 'failing_input': None, 'replay_on_real_code': None}
     found = False
     try:
-        if o.engine == 'kani' and scr is not None and 'harness' in o.extra:
-            test, out = K.run_playback_print(scr.path, o.extra['crate'], o.extra['harness'], 900 if tier == 'quick' else 3600,
-                                             log=os.path.join(LOG_DIR, 'playback_%s_%s.log' % (prop, h)))
-            if test:
-                rec['failing_input'] = {'kind': 'kani concrete playback test', 'test': test}
-                ok, rout = N.replay_kani_test(scr, o, test, CONTRACTS, U)
-                rec['replay_on_real_code'] = rout[-4000:]
-                found = ok
-        elif o.engine == 'verus':
-            pair = U.VERUS.get(o.unit, {}).get('pair')
-            rec['woven_source'] = open(o.extra['woven']).read() if o.extra.get('woven') and os.path.exists(o.extra['woven']) else None
-            if pair:
-                ok, inp, rout = N.run_pair(scr, prop, o, pair, CONTRACTS, U, LOG_DIR)
-                if ok:
-                    rec['failing_input'] = inp
-                    rec['replay_on_real_code'] = rout[-4000:]
-                    found = True
-        elif o.engine == 'native':
-            rec['failing_input'] = o.extra.get('input')
+        if o.engine == 'native':
+            rec['failing_input'] = {'kind': 'native enumerator input (run on the real code)', 'input': o.extra.get('input')}
             rec['replay_on_real_code'] = o.extra.get('output', '')[-4000:]
             found = bool(o.extra.get('input'))
+        else:
+            spec = (U.VERUS if o.engine == 'verus' else U.KANI).get(o.unit, {})
+            pair = spec.get('pair')
+            if o.engine == 'verus' and o.extra.get('woven') and os.path.exists(o.extra['woven']):
+                rec['woven_source'] = open(o.extra['woven']).read()
+            if pair:
+                hits = [x for x in all_obls if x.engine == 'native' and x.unit == pair and x.status == 'failed']
+                if not hits and not any(x.unit == pair for x in all_obls):
+                    ok, inp, rout = N.run_pair(scr, prop, o, pair, CONTRACTS, U, LOG_DIR)
+                    if ok:
+                        rec['failing_input'] = inp
+                        rec['replay_on_real_code'] = rout[-4000:]
+                        found = True
+                elif hits:
+                    x = hits[0]
+                    rec['failing_input'] = {'kind': 'native enumerator input (run on the real code)', 'unit': pair, 'input': x.extra.get('input')}
+                    rec['replay_on_real_code'] = x.detail
+                    found = bool(x.extra.get('input'))
+            if not found and o.engine == 'kani' and scr is not None and 'harness' in o.extra and budget['kani_playback'] > 0:
+                budget['kani_playback'] -= 1
+                test, out = K.run_playback_print(scr.path, o.extra['crate'], o.extra['harness'], 300 if tier == 'quick' else 1800,
+                                                 log=os.path.join(LOG_DIR, 'playback_%s_%s.log' % (prop, h)))
+                if test:
+                    rec['failing_input'] = {'kind': 'kani concrete playback test', 'test': test}
+                    ok, rout = N.replay_kani_test(scr, o, test, CONTRACTS, U)
+                    rec['replay_on_real_code'] = rout[-4000:]
+                    found = ok
     except Exception as e:  # replay trouble must not hide the violation
         rec['replay_error'] = '%s' % e
         traceback.print_exc()
